@@ -92,7 +92,9 @@ func Generic(seed int64, i int) *big.Int {
 func Unknown(seed int64, i int) ref.Point {
 	y := ref.FMod(ref.FromLE(mc.Bytes(seed, "ptalph-unknown", i, 32)))
 	for {
-		if p, ok := ref.PointFromY(y, uint(i&1)); ok {
+		// a point WITH a torsion component (7 of 8 decodable y): callers rely on it, and which y is hit
+		// must not depend on luck with the seed
+		if p, ok := ref.PointFromY(y, uint(i&1)); ok && !p.IsTorsionFree() {
 			return p
 		}
 		y = ref.FAdd(y, big.NewInt(1))
